@@ -495,15 +495,18 @@ class Msgs(Suite):
 
     @staticmethod
     def updreq_domain(raw):
-        """every command line is three single-space separated graphic-ASCII tokens (the modelled fmt.Sscanf domain)"""
+        """every command line is three single-space separated graphic-ASCII tokens (the modelled fmt.Sscanf domain);
+        only the first command line is cut at its NUL (the capabilities follow), later lines are parsed whole"""
         pos = 0
+        first = True
         while pos < len(raw):
             l, pl, e, npos = ref_read(raw, pos, 65520)
             if npos <= pos or e != "nil":
                 break
             pos = npos
-            if l > 4 and not pl.rstrip(b"\n").startswith(b"shallow"):
-                cmd = pl.split(b"\x00")[0]
+            if l > 4 and not (first and pl.rstrip(b"\n").startswith(b"shallow")):
+                cmd = pl.split(b"\x00")[0] if first else pl
+                first = False
                 toks = cmd.split(b" ")
                 if len(toks) != 3 or not all(toks) or not all(32 <= ch < 127 for ch in cmd):
                     return False
@@ -1184,8 +1187,8 @@ class Git(Suite):
                 fails[c["id"]] = "a scenario value was not encoded: %s" % [((p or {}).get("enc"), (p or {}).get("err")) for p in parts]
                 continue
             jobs.append((c, [bytes.fromhex(p["bytes"]) for p in parts]))
-        base = os.path.join(ctx.tmp, "git")
-        os.makedirs(base, exist_ok=True)
+        import tempfile
+        base = tempfile.mkdtemp(prefix="git", dir=ctx.tmp)          # fresh for every pass: scenarios write repositories
 
         def run(job):
             c, enc = job
